@@ -16,8 +16,17 @@ the continuity clause, impl -> spec):
    end = start, pairwise distances unchanged at every Cartesian frame on the way, norms kept
    by rigid edges, ``ecef2lla`` results on the reference ellipsoid.
 3. ``EarthClock.tla``.  Exact calendar (day-of-year oracle for ``dayOfYear``, every day of
-   2014..2022) and the continuity relation: the records of measured 1 s transitions of the
-   Earth-fixed longitude of fixed inertial directions are validated by TLC (ContinuityOK).
+   2014..2022) and the continuity relation: the records of measured 1 s (and 0.5 s)
+   transitions of the Earth-fixed longitude of fixed inertial directions - every midnight of
+   the table span, seeded minute / hour / second boundaries - are validated by TLC
+   (ContinuityOK: advance = elapsed SI seconds, 2 at the two inserted leap seconds, plus the
+   table's own day-to-day step of UT1-TAI).
+   Python-side relation (no TLC): the Earth-fixed velocity is the time derivative of the
+   Earth-fixed position.
+
+Decided exactly: the lattice helpers and the calendar.  Decided as relations with stated
+tolerances: closed walks, rigidity, ellipsoid definition, continuity.  Not decided: the
+absolute orientation (IAU-76/FK5 series, sidereal-time epoch) against an external almanac.
 """
 from __future__ import annotations
 
@@ -204,8 +213,12 @@ def replay_lattice(ctx: Ctx, res, V: Viol) -> None:
                 if not _close(back[:3], rng * d, 1e-12 * rng):
                     V.add("razel2sez-convention", "razel2sez does not put azimuth 0 to the north (-S) and 90 deg to the east",
                           {"part": "lattice", "azq": st["azq"], "elq": st["elq"], "got": back.tolist(), "expected": (rng * d).tolist()})
-    if n == 0:
-        raise tlc.MachineryError("Lattice3.tla emitted no states")
+    # the emission must be the complete lattice (guards against a truncated TLC output)
+    nw = len(skew_seen)
+    nt = len({st["qa"] for st in res.tagged("ROT")})
+    counts = {t: len(res.tagged(t)) for t in ("VEC", "ROT", "DOT", "SITE", "LOOK")}
+    if n == 0 or counts != {"VEC": nw * nw, "ROT": 3 * nt * nt, "DOT": 3 * nt * nw, "SITE": 12, "LOOK": 6}:
+        raise tlc.MachineryError(f"Lattice3.tla emission incomplete: {counts} for {nw} vectors, {nt} turn counts")
     ctx.traces_validated += n
     ctx.extra["lattice_states_replayed"] = n
 
